@@ -159,3 +159,28 @@ def cells_equal(xs, ys):
         if a1 != a2 or c1 != c2:
             return False
     return True
+
+
+# ---- two-level selectors -------------------------------------------------------------
+# Realising ONE selector over N values builds a linear chain of N "== v?" decisions (cost O(N^2) over the run);
+# two selectors over ~sqrt(N) values each keep the chain short.
+def group_size(n):
+    g = 1
+    while g * g < n:
+        g += 1
+    return max(g, 1)
+
+
+def sel_ok(n, s1, s2):
+    g = group_size(n)
+    return 0 <= s1 and 0 <= s2 < g and s1 * g + s2 < n
+
+
+def pick(cases, s1, s2):
+    from crosshair.core import realize
+    g = group_size(len(cases))
+    return cases[int(realize(s1)) * g + int(realize(s2))]
+
+
+def pick_concrete(cases, s1, s2):
+    return cases[s1 * group_size(len(cases)) + s2]
